@@ -32,7 +32,9 @@ ASSUME = ['math.erfc / math.log10 of the C library trusted (reference inverse no
           'documented text syntax = keyword arguments as in doc/source/user/taurex/fitting.rst (plus lin_std by the '
           'same lin_* rule); a text with positional arguments must either equal the direct construction or be rejected',
           'values only on the declared lattices (|bounds| <= 1e3, std >= 1e-3); std > 0',
-          'Gaussian boundaries() are only required to be an ordered finite pair (the statement does not define them)']
+          'Gaussian boundaries() are only required to be an ordered finite pair (the statement does not define them)',
+          'values handed to prior() are Python floats or ints; numpy integer scalars are outside the alphabet (10**np.int64(-4) '
+          'raises in numpy itself, on the unchanged tree too)']
 
 U = [0.0, 1e-12, 1e-6, 0.1, 0.16, 0.25, 0.5, 0.75, 0.84, 0.9, 1 - 1e-6, 1.0]
 XS = [-12.0, -3.0, -1.0, 0.0, 0.5, 2.0]
@@ -102,6 +104,15 @@ def check_prior(r, p, rp, tag):
             xs=xs)
     for x in XS:
         r.eq(p.prior(x), rp.to_model(x), 'to-model', 'to-model/%s' % tag, x=x)
+    # whole-number values handed over as Python ints (a fit value of -4 written without a decimal point)
+    for xi in (-12, -4, 0, 3, 20):
+        for conv, cname in ((int, 'int'),):
+            try:
+                got_i = p.prior(conv(xi))
+            except Exception as e:
+                r.check(False, 'to-model', 'to-model-raised/%s/%s' % (cname, tag), x=xi, exc=repr(e))
+                continue
+            r.eq(float(got_i), rp.to_model(float(xi)), 'to-model', 'to-model-%s/%s' % (cname, tag), x=xi)
     b = p.boundaries()
     okb = len(b) == 2
     if okb:
